@@ -131,6 +131,7 @@ def generic_core(ctx, rep):
     _r(generic_tables.rule_eqn, ctx, rep)
     _r(generic_tables.rule_worklist, ctx, rep)
     _r(generic_tables.rule_fixpoint_programs, ctx, rep)
+    _r(function_rules.rule_function_construction, ctx, rep)
     _r(stack_rules.rule_stack_discipline, ctx, rep, full=False)
     _r(spelling.rule_constant_block, ctx, rep)
     _r(effects.rule_pure_lattice, ctx, rep)
@@ -152,6 +153,8 @@ def c03(ctx, rep):
     _r(cmptables.rule_addr_tables, ctx, rep)
     _r(cmptables.rule_int_tables, ctx, rep)
     _r(cmptables.rule_kind_exact_compared, ctx, rep)
+    _r(generic_tables.rule_fixpoint_programs, ctx, rep, only=("rekey-to verdict: spurious", "RekeyTo exact", "GroupSize exact", "GroupIndex exact", "Fee exact", "Fee empty", "runs"))
+    _r(function_rules.rule_function_construction, ctx, rep)
 
 
 from .rules import gtxn_tables  # noqa: E402
@@ -233,6 +236,7 @@ def c04(ctx, rep):
     _r(cfg_rules.rule_successor_dedup, ctx, rep)
     _r(cfg_rules.rule_edge_ownership, ctx, rep)
     _r(cfg_rules.rule_global_edges_inverse, ctx, rep)
+    _r(cfg_rules.rule_global_edges_programs, ctx, rep)
 
 
 @prop("C05", "Decides the structural clauses of C05: (T-CFG subroutines) on 29 abstract program shape classes (0-3 subroutines; nested, "
@@ -245,6 +249,7 @@ def c05(ctx, rep):
     _r(cfg_rules.rule_call_graph, ctx, rep)
     _r(cfg_rules.rule_return_point_siblings, ctx, rep)
     _r(cfg_rules.rule_global_edges_inverse, ctx, rep)
+    _r(cfg_rules.rule_global_edges_programs, ctx, rep)
 
 
 @prop("C02", "Decides the structural clauses of C02: (R-GATE) guard table of search_paths - a path is appended only at a global leaf, "
@@ -260,6 +265,7 @@ def c02(ctx, rep):
     _r(detectors.rule_group_all, ctx, rep)
     _r(cfg_rules.rule_successor_dedup, ctx, rep)
     _r(cfg_rules.rule_global_edges_inverse, ctx, rep)
+    _r(cfg_rules.rule_global_edges_programs, ctx, rep)
     _r(cfg_rules.rule_cfg_shapes, ctx, rep, rule="T-CFG")
 
 
